@@ -133,7 +133,7 @@ def validate(recs, name="MatcherTrace"):
 
 
 def model_check(chk, tier):
-    runs = [(2, 2, 1, 3), (1, 2, 2, 3), (2, 1, 2, 3)] if tier == "quick" else [(2, 2, 1, 4), (1, 2, 2, 4), (2, 1, 2, 4), (2, 3, 1, 2), (3, 2, 1, 2)]
+    runs = [(2, 2, 1, 2), (1, 2, 2, 3), (2, 1, 2, 3)] if tier == "quick" else [(2, 2, 1, 4), (1, 2, 2, 4), (2, 1, 2, 4), (2, 3, 1, 2), (3, 2, 1, 2)]
     for n, m, v, ops in runs:
         cfg = ("SPECIFICATION Spec\nCONSTANTS N = %d M = %d V = %d MaxOps = %d\nINVARIANT ProgressShrinks\nINVARIANT QuiescentDefinitive\n"
                "INVARIANT MatchIsAssignment\nINVARIANT CacheSound\nINVARIANT Settled\nPROPERTY NeverWidens\nPROPERTY InternalNeverWidens\n"
@@ -152,7 +152,7 @@ def check(chk, tier, r, schedules):
     model_check(chk, tier)
     shapes = {1: [(1, 1)], 2: [(1, 2), (2, 1)], 3: [(1, 3), (3, 1)], 4: [(2, 2)], 6: [(2, 3), (3, 2)]}
     recs, raised = [], 0
-    cap = 600 if tier == "quick" else 6000
+    cap = 300 if tier == "quick" else 6000
     for ch in schedules:
         for n, m in shapes.get(len(ch), []):
             if len(recs) >= cap:
